@@ -46,12 +46,12 @@ func (f filter) Matches(series storage.Series) bool {
 		return true
 	}
 
-	for _, l := range series.Labels() {
-		m, ok := f.matcherSet[l.Name]
-		if !ok {
-			continue
-		}
-		if !m.Matches(l.Value) {
+	// Every matcher has to match, also matchers on labels which the series
+	// does not have (the value of a missing label is the empty string) and
+	// several matchers on the same label.
+	lbls := series.Labels()
+	for _, m := range f.matchers {
+		if !m.Matches(lbls.Get(m.Name)) {
 			return false
 		}
 	}
